@@ -53,6 +53,87 @@ def _homomorphism(fn: ast.FunctionDef):
     return loop.target.id, expr
 
 
+def program_bytes_verbatim(chk, repo):
+    """A program stored one byte per character reaches the byte-to-text
+    converter unchanged: the file behind every vyxal_to_utf8(...) in main.py
+    is opened in binary mode (a text-mode handle translates 0x0D / 0x0D 0x0A
+    into 0x0A unless newline='' is given)."""
+    main = repo.mod("main")
+    n = 0
+    def open_info(call):
+        mode = call.args[1] if len(call.args) > 1 else next(
+            (k.value for k in call.keywords if k.arg == "mode"), None)
+        mtxt = mode.value if isinstance(mode, ast.Constant) \
+            else ("r" if mode is None else None)
+        newline = next((k.value for k in call.keywords
+                        if k.arg == "newline"), None)
+        verbatim = isinstance(newline, ast.Constant) and newline.value == ""
+        return (mtxt is not None and "b" in mtxt) or verbatim
+
+    def arm_of(node, fn):
+        """the innermost if/else arm (statement list) that contains node"""
+        child = node
+        cur = getattr(node, "_parent", None)
+        while cur is not None and cur is not fn:
+            if isinstance(cur, ast.If):
+                for arm in (cur.body, cur.orelse):
+                    if any(child is x for x in arm):
+                        return arm
+            child = cur
+            cur = getattr(cur, "_parent", None)
+        return None
+
+    def inside(node, arm):
+        return arm is None or any(node is d for st in arm
+                                  for d in ast.walk(st))
+
+    for fn in main.functions.values():
+        # (assignment, local name, open call) for `name = handle.read()`
+        reads = []
+        for w in ast.walk(fn):
+            if not isinstance(w, ast.With):
+                continue
+            for item in w.items:
+                oc, var = item.context_expr, item.optional_vars
+                if not (isinstance(oc, ast.Call) and dotted(oc.func) in (
+                        "open", "io.open") and isinstance(var, ast.Name)):
+                    continue
+                for a in [x for st in w.body for x in ast.walk(st)]:
+                    if isinstance(a, ast.Assign) and len(a.targets) == 1 \
+                            and isinstance(a.targets[0], ast.Name) and any(
+                            isinstance(m, ast.Call) and isinstance(
+                                m.func, ast.Attribute) and m.func.attr in (
+                                "read", "readlines", "readline")
+                            and isinstance(m.func.value, ast.Name)
+                            and m.func.value.id == var.id
+                            for m in ast.walk(a.value)):
+                        reads.append((a, a.targets[0].id, oc))
+        for c in ast.walk(fn):
+            if not (isinstance(c, ast.Call) and (dotted(c.func) or ""
+                                                 ).endswith("vyxal_to_utf8")
+                    and c.args):
+                continue
+            n += 1
+            names = {m.id for m in ast.walk(c.args[0])
+                     if isinstance(m, ast.Name)}
+            srcs = [oc for a, nm, oc in reads
+                    if nm in names and inside(c, arm_of(a, fn))]
+            bad = [oc for oc in srcs if not open_info(oc)]
+            chk.ob("C20.program-bytes-read-verbatim",
+                   f"main.{fn.name}:{ast.unparse(c)[:50]}",
+                   bool(srcs) and not bad,
+                   ("the bytes handed to vyxal_to_utf8 come from "
+                    f"`{ast.unparse(bad[0])[:60]}`, a text-mode "
+                    "handle: universal newlines turn byte 0x0D (and 0x0D "
+                    "0x0A) into 0x0A, so the element on that byte cannot be "
+                    "written in a one-byte-per-character file") if bad else
+                   "the source of the bytes handed to vyxal_to_utf8 could "
+                   "not be traced to an open(...) in this function",
+                   main.rel, c.lineno,
+                   witness="file `8 2•` (• is byte 0x0D) run with flag v")
+    chk.floor("vyxal_to_utf8 calls in main.py", n, 1)
+
+
 def check(chk, repo, tier):
     it = Interp(repo)
     enc = repo.mod("encoding")
@@ -124,6 +205,8 @@ def check(chk, repo, tier):
                f"character {ch!r} does not survive text->bytes->text", F,
                f_from.lineno)
 
+    program_bytes_verbatim(chk, repo)
+
     # ---- tables ---------------------------------------------------------------
     el_entries = table_keys_with_nodes(repo, "elements")
     mod_entries = table_keys_with_nodes(repo, "modifiers")
@@ -144,6 +227,52 @@ def check(chk, repo, tier):
     brk = pparse.get("BREAK_CHARACTER")
     rec = pparse.get("RECURSE_CHARACTER")
     chk.floor("structure openers", len(openers), 9)
+
+    # (5') the tables are what their literal says: bound once, never written
+    from ..templates import table_bindings  # noqa: PLC0415
+    pkg_mods = [m for m in repo.package_modules()
+                if not m.endswith(".dictionary")]
+    for tname in ("elements", "modifiers"):
+        binds = table_bindings(repo, tname)
+        extra = [b for b in binds if not isinstance(b, ast.Dict)]
+        chk.ob("C20.table-is-its-literal", f"elements.{tname}",
+               len(binds) == 1 and not extra,
+               f"the name `{tname}` is bound {len(binds)} times at module "
+               "level" + (f" (also to `{ast.unparse(extra[0])[:50]}`)"
+                          if extra else "")
+               + ": the table the interpreter uses is not the documented "
+               "literal (a defaultdict, for instance, gains a key for every "
+               "unknown token it is asked about)", EF,
+               extra[0].lineno if extra else None,
+               witness="run `kX` twice under a modifier: the table has "
+                       "grown an undocumented arity -1 entry")
+        writes = []
+        for modname in pkg_mods:
+            m = repo.mod(modname)
+            for n in ast.walk(m.tree):
+                tg = []
+                if isinstance(n, ast.Assign):
+                    tg = n.targets
+                elif isinstance(n, (ast.AugAssign, ast.AnnAssign)):
+                    tg = [n.target]
+                elif isinstance(n, ast.Delete):
+                    tg = n.targets
+                for t in tg:
+                    if isinstance(t, ast.Subscript) and (dotted(t.value) or ""
+                                                         ).split(".")[-1] == \
+                            tname:
+                        writes.append((m, n))
+                if isinstance(n, ast.Call) and isinstance(
+                        n.func, ast.Attribute) and n.func.attr in (
+                        "setdefault", "update", "pop", "popitem", "clear",
+                        "__setitem__") and (dotted(n.func.value) or ""
+                                            ).split(".")[-1] == tname:
+                    writes.append((m, n))
+        chk.ob("C20.table-never-written", f"elements.{tname}", not writes,
+               (f"`{ast.unparse(writes[0][1])[:60]}` changes the table at "
+                "run time") if writes else "",
+               writes[0][0].rel if writes else EF,
+               writes[0][1].lineno if writes else None)
 
     # (5) duplicate keys
     for tname, entries in (("elements", el_entries), ("modifiers", mod_entries)):
